@@ -278,8 +278,18 @@ func (c *client) SendBatch(ctx context.Context, batch []hrpc.Call) (
 	backoff := backoffStart
 
 	for {
-		rpcByClient, ok := c.findClients(ctx, batch, res)
+		// findClients reports an error at the position the call has in
+		// the batch it is given. After the first round that batch only
+		// holds the calls being retried, so map the errors back to the
+		// positions of the original batch.
+		findRes := make([]hrpc.RPCResult, len(batch))
+		rpcByClient, ok := c.findClients(ctx, batch, findRes)
 		if !ok {
+			for i, r := range findRes {
+				if r.Error != nil {
+					res[rpcToRes[batch[i]]] = r
+				}
+			}
 			return res, false
 		}
 		sendBatchSplitCount.Observe(float64(len(rpcByClient)))
